@@ -405,6 +405,7 @@ class Machine:
         except KeyError:
             raise InternalError(f'dangling root {root}')
         for p in path:
+            if isinstance(v, Ref) and p == 0: continue      # Unique<T> / NonNull<T> inside a Box are transparent wrappers of the pointer
             if not isinstance(v, Agg): raise InternalError(f'field {p} of non-aggregate {v!r} (root {root} path {path})')
             try:
                 v = v.f[p]
@@ -502,7 +503,7 @@ class Machine:
                 stmts, term = bl['bb0']
                 if term[0] == 'return' and len(stmts) >= 1 and stmts[-1][0] == 'assign' and stmts[-1][2][0] == 'use' and stmts[-1][2][1][0] == 'const':
                     return s.const(stmts[-1][2][1][1])
-            raise Unmodelled('constant item with a non-trivial body: ' + c)
+            return Opaque('const:' + c)        # opaque: any use other than passing it along is unmodelled and raises there
         return Opaque('const:' + c)
 
     def operand(s, st, fr, op):
@@ -939,6 +940,40 @@ class Machine:
         r = s.env.after(s, st, th, k, data, rv)
         if r is None: raise InternalError('k_after kind ' + k)
         return s.apply_outcomes(r, th.name)
+
+    def k_retain(s, st, th, fr, why, rv):
+        """Vec/VecDeque::retain(pred): data = (seq ref, closure (ref), index, phase) ; phase 0 = idle / 1 = predicate running / 2 = dropping a rejected element"""
+        seqref, clo, i, phase = fr.data
+        if why == 'unwind':
+            th.stack.pop(); return 'continue'
+        if why == 'ret' and phase == 1:
+            outs = []
+            for st2, keep in s.fork_on(st, rv):
+                th2 = st2.threads[th.name]; fr2 = th2.stack[-1]
+                if keep:
+                    fr2.data = (seqref, clo, i + 1, 0)
+                else:
+                    seq = s.deref(st2, seqref); items = seq.items()
+                    x = items.pop(i); s.write(st2, seqref, Agg(seq.ty, items))
+                    if isinstance(x, Agg) and x is not UNIT:
+                        fr2.data = (seqref, clo, i, 2); s.push_k(th2, 'drop', (x,), None)
+                    else:
+                        fr2.data = (seqref, clo, i, 0)
+                outs.append((st2, None))
+            return outs
+        if why == 'ret' and phase == 2:
+            fr.data = (seqref, clo, i, 0); phase = 0
+        # phase 0: call the predicate on the next element, or finish
+        seq = s.deref(st, seqref)
+        if i >= len(seq.f):
+            th.stack.pop()
+            if isinstance(clo, Ref) and not clo.path: st.heap.pop(clo.root, None)
+            return s.deliver(st, th, UNIT)
+        if isinstance(clo, Agg) and clo.ty.startswith('{closure'):
+            clo = Ref(st.alloc(clo))
+        fr.data = (seqref, clo, i, 1)
+        r = s.call_value(st, th, clo, [seqref.field(i)])
+        return r if r is not None else [(st, None)]
 
     def k_env(s, st, th, fr, why, rv):
         """generic continuation owned by the environment: data = (name, payload)"""
